@@ -82,7 +82,10 @@ func (s *shutdownContext) setShuttingDown(value bool) {
 func (s *shutdownContext) handleProcessExit(termination supvmodel.ProcessTermination) {
 
 	name := *termination.Name
+	// written by shutdownAgents on the reset/shutdown goroutine while this runs on the events watcher
+	s.runtimeDomainExitedMutex.Lock()
 	agent, found := s.agentsAwaitingExit[name]
+	s.runtimeDomainExitedMutex.Unlock()
 
 	// If it is an agent registered to receive a shutdown event.
 	if found {
@@ -241,7 +244,9 @@ func (s *shutdownContext) shutdownAgents(execCtx *rapidContext, start time.Time,
 	var wg sync.WaitGroup
 
 	// clear agentsAwaitingExit from last shutdownAgents
+	s.runtimeDomainExitedMutex.Lock()
 	s.agentsAwaitingExit = make(map[string]*core.ExternalAgent)
+	s.runtimeDomainExitedMutex.Unlock()
 
 	for _, a := range execCtx.registrationService.GetExternalAgents() {
 		name := fmt.Sprintf("extension-%s-%d", a.Name, execCtx.runtimeDomainGeneration)
@@ -256,7 +261,9 @@ func (s *shutdownContext) shutdownAgents(execCtx *rapidContext, start time.Time,
 
 		if a.IsSubscribed(core.ShutdownEvent) {
 			log.Debugf("Agent %s is registered for the shutdown event.", a)
+			s.runtimeDomainExitedMutex.Lock()
 			s.agentsAwaitingExit[name] = a
+			s.runtimeDomainExitedMutex.Unlock()
 
 			go func(name string, agent *core.ExternalAgent) {
 				defer wg.Done()
@@ -362,7 +369,9 @@ func (s *shutdownContext) shutdown(execCtx *rapidContext, deadlineNs int64, reas
 		s.shutdownRuntime(execCtx, start, runtimeDeadline)
 		s.shutdownAgents(execCtx, start, agentsDeadline, reason)
 
+		s.runtimeDomainExitedMutex.Lock()
 		runtimeDomainProfiler.NumAgentsRegisteredForShutdown = len(s.agentsAwaitingExit)
+		s.runtimeDomainExitedMutex.Unlock()
 	}
 
 	log.Info("Waiting for runtime domain processes termination")
